@@ -325,6 +325,7 @@ def main(argv=None) -> int:
         if not a.no_build:
             rep, b = translate(list(getattr(mod, "GEN", [])))
             broken += b
+            sh(["python3", os.path.join(VERIF, "tools", "gen_driver.py")])
             ok, b, text = lake_build(prop)
             broken += b
             thms, examples = theorems_of(prop)
